@@ -525,6 +525,13 @@ structure St extends Core where
   /-- ghost: a `watch` handler created an arena value / registered a cleanup / looked up a context
   while no `Owner::with` frame was active at all -/
   watchHit : Bool := false
+  /-- ghost: an `ImmediateEffect` whose last handle was dropped while one of its runs was in
+  progress ran again (F-C08-3) -/
+  immHit : Bool := false
+  /-- configuration, never changed by any op: an `ImmediateEffect` that is running stays reachable
+  for notifications after its last handle has been dropped (the notifying loop holds the upgraded
+  `Arc`), as the code at the pinned commit does (F-C08-3); `false` = `dispose` stops it at once -/
+  legacyImm : Bool := true
   /-- configuration, never changed by any op: run `Effect::watch` handlers as the code did before
   the repair of F-C08-2 (`runHandlerOld`); only the regression witness sets it -/
   legacyWatch : Bool := false
@@ -562,11 +569,14 @@ def dropLive (st : St) : Option Nat → Bool
   | some cid => !cidRan st.toCore cid
   | none => false
 
+/-- a run of this `ImmediateEffect` is in progress -/
+def immRunning (r : EffRec) : Bool := r.kind.isImm && decide (0 < r.runStart)
+
 /-- the `Arc<RwLock<EffectInner>>` (resp. `ArcAsyncDerived`) still has a strong reference; for a scoped
 task: it will still run user code when polled -/
 def effLive (st : St) (e : Nat) : Bool :=
   match st.effs[e]? with
-  | some r => r.held || keyLive st e r.key || dropLive st r.dropCid
+  | some r => r.held || keyLive st e r.key || dropLive st r.dropCid || (st.legacyImm && immRunning r)
   | none => false
 
 def subLive (st : St) : Sub → Bool
@@ -746,8 +756,9 @@ def immUpdate (ex : St → BOp → St) (st : St) (e : Nat) : St :=
     if ownerPaused st.toCore er.owner || !er.dirty then st
     else
       let d := st.mutDepth
+      let hit := !(er.held || dropLive st er.dropCid)
       let st := immBegin st e er
-      let st := { st with mutDepth := d + (if er.kind.isMut then 1 else 0) }
+      let st := { st with mutDepth := d + (if er.kind.isMut then 1 else 0), immHit := st.immHit || hit }
       let st := runScoped ex st e er.owner er.body
       immEnd { st with mutDepth := d } e (er.runStart + 1)
 
@@ -797,10 +808,19 @@ def setSig (ex : St → BOp → St) (st : St) (s : Nat) (v : Int) : St :=
     else st
   | none => st
 
+/-- the observer of the body being run is an `AsyncDerived` -/
+def obsAsync (st : St) : Bool :=
+  match st.obs with
+  | some (.eff e) =>
+    match st.effs[e]? with
+    | some er => er.kind == EffKind.async
+    | none => false
+  | _ => false
+
 /-- the `z<s>.<v>` token: `if s.get_untracked() < v { s.set(v) }`; not inside a memo, not while a
-`new_mut` function is running (it would panic) -/
+`new_mut` function is running (it would panic), not in the function of an `AsyncDerived` -/
 def writeSig (ex : St → BOp → St) (st : St) (s : Nat) (v : Nat) : St :=
-  if st.memoDepth > 0 || st.mutDepth > 0 then st
+  if st.memoDepth > 0 || st.mutDepth > 0 || obsAsync st then st
   else
     match st.sigs[s]? with
     | some r => if sigLive st s && decide (r.val < (v : Int)) then setSig ex st s v else st
@@ -1003,8 +1023,8 @@ def pollTask (st : St) (e : Nat) (er : EffRec) : St :=
   if !effLive st e then finishTask st e
   else afterSeg (runSeg execBOp { st with effs := st.effs.set e { er with woken := false } } e er) e
 
-/-- one poll of effect `e`'s task -/
-def pollEff (st : St) (e : Nat) : St :=
+/-- one iteration of `while rx.next().await.is_some() { .. }` in effect `e`'s task -/
+def pollIter (st : St) (e : Nat) : St :=
   match st.effs[e]? with
   | none => st
   | some er =>
@@ -1017,6 +1037,19 @@ def pollEff (st : St) (e : Nat) : St :=
     else
       -- after the run the loop polls the channel again: it may have been closed during the run
       if !effLive (runEffect st e er) e then endTask (runEffect st e er) e else runEffect st e er
+
+/-- the run has notified its own effect (it wrote a signal it reads): `rx.next()` is ready at once -/
+def notifiedAgain (st : St) (e : Nat) : Bool :=
+  match st.effs[e]? with
+  | some er => !er.done && er.notified && !er.kind.isTask
+  | none => false
+
+/-- one poll of effect `e`'s task: the loop goes round as long as a notification is waiting -/
+def pollLoop : Nat → St → Nat → St
+  | 0, st, _ => st
+  | n + 1, st, e => if notifiedAgain (pollIter st e) e then pollLoop n (pollIter st e) e else pollIter st e
+
+def pollEff (st : St) (e : Nat) : St := pollLoop 64 st e
 
 def ready (st : St) : List Nat :=
   st.tasks.filter fun e =>
